@@ -758,7 +758,7 @@ Definition py_int_v (v : V) : A :=
    spelling (read by the model's number lexer, which must consume all of it) *)
 Definition spell_dec (s : string) : option dec :=
   match list_ascii_of_string s with
-  | c :: _ as l =>
+  | (c :: _) as l =>
       if is_digit c then
         match lex_number l with
         | (TFloat d, []) => Some d
